@@ -1,5 +1,6 @@
 from __future__ import annotations
 
+import copy
 import struct
 
 from spacepackets import BytesTooShortError
@@ -54,8 +55,8 @@ tc_psc=PacketSeqCtrl(seq_flags=<SequenceFlags.UNSEGMENTED: 3>, seq_count=17), cc
     def from_sp_header(cls, header: SpacePacketHeader) -> RequestId:
         return cls(
             ccsds_version=header.ccsds_version,
-            tc_packet_id=header.packet_id,
-            tc_psc=header._psc,
+            tc_packet_id=copy.copy(header.packet_id),
+            tc_psc=copy.copy(header._psc),
         )
 
     def pack(self) -> bytes:
